@@ -49,6 +49,10 @@ ASSUMPTIONS = [
     "value-class acceptance (_check_value_class) is modelled on the implementation's per-class verdicts "
     "(Model/ValValue.v, correspondence on every value tag met); the expected verdict of the ORACLE is computed from the "
     "XML reading + class_regex.json with python re, independently of hed-python",
+    "every mutation rule requires its code AT ERROR SEVERITY (codes are looked up among severity-1 issues only); "
+    "definitions whose placeholder sits in a unit-class tag, with numeric / non-numeric values written with a valid "
+    "unit / a bad unit / no unit, are an input dimension of the wrongly-valued-Def rule (tested only: the verdict of "
+    "validate_def_value_units is a fact input)",
     "definition SHAPES (no contents, one tag, one group, nested groups, with/without placeholder) and definition NAMES "
     "are input dimensions of the generator (ASCII, plain non-ASCII, letters whose lower() differs "
     "from casefold(); modern-character schemas only) and the definitions reach the validator through two entry points "
@@ -531,7 +535,9 @@ def value_and_sequence_cases(tier, seed, keys, plain_cases):
                                  + ":accepted_by_%d" % meta["accepted_by"]))
         if not V.has_defs:
             continue
-        for item, exp, rule in G.def_shape_cases(rng, V, 50 if tier == "quick" else 300):
+        shape_and_unit = ([(i, ([e] if e else None), r) for i, e, r in G.def_shape_cases(rng, V, 50 if tier == "quick" else 300)]
+                          + G.def_unit_value_cases(rng, V, 50 if tier == "quick" else 300))
+        for item, exp, rule in shape_and_unit:
             ph = rng.random() < 0.5
             tree = G.Builder(rng, V, ph).tree(rng.randint(0, 2)) if rng.random() < 0.6 else []
             tgt = tree
@@ -540,7 +546,7 @@ def value_and_sequence_cases(tier, seed, keys, plain_cases):
                     isinstance(y, str) and y.split("/")[0].casefold() in G.SPECIAL_NAMES for y in x)]
                 tgt = rng.choice(grp) if grp else tree
             tgt.insert(rng.randint(0, len(tgt)), item)
-            out.append(dict(schema=key, text=G.render(tree, rng), ph=ph, expect=exp, rule=rule))
+            out.append(dict(schema=key, text=G.render(tree, rng), ph=ph, expect=None, expect_all=exp, rule=rule))
         if V.modern:
             for item, exp, rule in G.name_cases(rng, V, 60 if tier == "quick" else 300):
                 ph = rng.random() < 0.5
